@@ -66,6 +66,15 @@ func VP_C05_ClientConfig() {
 		vp.Assert(conf.RootCAs == vp05Pool, "root-ca-pool-is-the-parsed-pool")
 	}
 	vp.Assert(conf.ServerName == "" && conf.VerifyPeerCertificate == nil && conf.VerifyConnection == nil, "no-verification-override")
+	// an earlier connection adjusts the configuration it was handed (StartTLS sets the expected server name, stdin+tls
+	// switches verification off - the documented exception); the next connection's configuration must not inherit that
+	conf.ServerName = "earlier-upstream.example"
+	conf.InsecureSkipVerify = true
+	vp05Pool = nil
+	conf2, err2 := m.GetTlsConfig()
+	if err2 == nil { // (loading may fail the second time: the stubs' outcomes are symbolic per call)
+		vp.Assert(conf2 != nil && conf2.InsecureSkipVerify == m.InsecureSkipVerify && conf2.ServerName == "", "configuration-independent-of-earlier-connections")
+	}
 	vp.Reach("client-config")
 }
 
